@@ -324,3 +324,63 @@ def scribble(obj, depth=0):
             n += scribble(x, depth + 1)
     return n
 
+
+def _arrays_in(obj, out, depth=0):
+    if depth > 4:
+        return
+    if isinstance(obj, np.ndarray):
+        if obj.size:
+            out.append(obj)
+    elif isinstance(obj, (tuple, list)):
+        for x in obj:
+            _arrays_in(x, out, depth + 1)
+    elif isinstance(obj, dict):
+        for x in obj.values():
+            _arrays_in(x, out, depth + 1)
+
+
+class Held(object):
+    """Results the caller is still holding.  `hold` remembers every array of a judged result together with its
+    bytes; `settle` -- called before the NEXT operation's results are used, i.e. after the library has been called
+    again -- first verifies that the library has not changed what it handed out earlier (a result that is a view of
+    a work buffer or of a cache is overwritten by the next call), then lets the caller edit the arrays in place
+    (`scribble`)."""
+
+    def __init__(self):
+        self.items = []
+
+    def hold(self, obj):
+        arrs = []
+        _arrays_in(obj, arrs)
+        for a in arrs:
+            try:
+                self.items.append((a, np.ascontiguousarray(a).tobytes()))
+            except Exception:
+                pass
+
+    def changed(self):
+        """index of the first held array whose bytes changed, or None"""
+        for i, (a, snap) in enumerate(self.items):
+            try:
+                if np.ascontiguousarray(a).tobytes() != snap:
+                    return i
+            except Exception:
+                continue
+        return None
+
+    def settle(self, run, oracle, feats=None, what=""):
+        bad = self.changed()
+        ok = True
+        if bad is not None:
+            a, snap = self.items[bad]
+            run.fail(oracle, dict(feats or {}), "an array returned by an earlier call (%s, shape %r) was changed by a later "
+                     "call of the library while the caller was still holding it%s" % (a.dtype, a.shape, (": " + what) if what else ""))
+            ok = False
+        n = 0
+        for a, _snap in self.items:
+            n += scribble(a)
+        if n:
+            run.fault("caller_edited_a_result_in_place")
+        del self.items[:]
+        return ok
+
